@@ -1,8 +1,1276 @@
-//! (stub) family `robust` - see CONTRIBUTING.md
-use anyhow::{bail, Result};
+//! C16 driver: search never panics, aborts or hangs on any request that deserialises.
+//!
+//! Parent process: builds three small random indexes (text/keyword/numeric/nested/vector fields,
+//! two segments, deletions, non-ASCII text) plus an older generation of each, writes a *plan*
+//! (TLC-generated class vectors from Gen_Requests.tla, structure-aware random requests, byte/char
+//! mutants of valid request JSON that still deserialise) and runs it in child processes
+//! (`svh robust --child`). The child instantiates each class vector into concrete request JSON and
+//! executes every request on a worker thread under catch_unwind with a watchdog; a child that dies
+//! (stack overflow, allocation failure, abort) is restarted after the request that killed it, which
+//! is recorded as `Abort`. One event per request {cls, outcome, panic{cls,loc,msg}} is written for
+//! spec/Trace_Requests.tla, which owns the verdict (Outcome(cls) of spec/Requests.tla).
 
-use crate::util::Args;
+use std::collections::{BTreeMap, BTreeSet};
+use std::io::Write;
+use std::panic::{catch_unwind, AssertUnwindSafe};
+use std::path::{Path, PathBuf};
+use std::sync::mpsc;
+use std::sync::Mutex;
+use std::time::{Duration, Instant};
 
-pub fn main(_args: &Args) -> Result<()> {
-  bail!("family robust is not implemented yet")
+use anyhow::{bail, Context, Result};
+use rand::rngs::StdRng;
+use rand::Rng;
+use serde_json::{json, Map, Value};
+
+use searchlite_core::api::types::{SearchRequest, StorageType};
+use searchlite_core::api::{Index, IndexReader};
+
+use crate::util::*;
+
+const UMAX: u64 = u64::MAX;
+
+// ------------------------------------------------------------------------------------------------
+// Indexes
+// ------------------------------------------------------------------------------------------------
+
+fn index_schema(k: usize) -> Value {
+  let body_analyzer = if k == 2 { "uni" } else { "default" };
+  let mut s = json!({
+    "doc_id_field": "_id",
+    "analyzers": [{"name": "uni", "tokenizer": "unicode", "filters": [{"stopwords": "en"}]}],
+    "text_fields": [
+      {"name": "body", "analyzer": body_analyzer, "stored": true, "indexed": true, "nullable": true},
+      {"name": "title", "analyzer": "default", "stored": true, "indexed": true, "nullable": true}
+    ],
+    "keyword_fields": [
+      {"name": "tag", "stored": true, "indexed": true, "fast": true, "nullable": true},
+      {"name": "cat", "stored": true, "indexed": true, "fast": false, "nullable": true},
+      {"name": "lang", "stored": true, "indexed": true, "fast": true, "nullable": true}
+    ],
+    "numeric_fields": [
+      {"name": "year", "i64": true, "fast": true, "stored": true, "nullable": true},
+      {"name": "price", "i64": false, "fast": true, "stored": true, "nullable": true},
+      {"name": "views", "i64": true, "fast": false, "stored": true, "nullable": true}
+    ],
+    "nested_fields": [
+      {"name": "comment", "nullable": true, "fields": [
+        {"type": "keyword", "name": "author", "stored": true, "indexed": true, "fast": true, "nullable": true},
+        {"type": "numeric", "name": "score", "i64": true, "fast": true, "stored": true, "nullable": true}
+      ]}
+    ],
+    "vector_fields": []
+  });
+  if k == 1 {
+    s["vector_fields"] = json!([{"name": "emb", "dim": 2, "metric": "Cosine"}]);
+  }
+  s
+}
+
+const VOCAB: [&str; 20] = [
+  "rust", "search", "rust", "search", "ruby", "systems", "language", "engine", "syst\u{e8}me",
+  "na\u{ef}ve", "\u{65e5}\u{672c}\u{8a9e}", "\u{1f680}", "fast", "index", "query", "rusty", "rest", "r\u{e9}sum\u{e9}",
+  "\u{3b1}\u{3b2}\u{3b3}", "zeta",
+];
+
+fn random_doc(k: usize, i: usize, r: &mut StdRng) -> Value {
+  let words = |r: &mut StdRng, n: usize| -> String {
+    let mut w: Vec<&str> = (0..n).map(|_| *pick(r, &VOCAB)).collect();
+    if chance(r, 3, 4) {
+      w.push("rust");
+    }
+    if chance(r, 2, 3) {
+      w.insert(0, "search");
+    }
+    w.join(" ")
+  };
+  let mut d = Map::new();
+  d.insert("_id".into(), json!(format!("d{i}")));
+  let nb = r.gen_range(3..12);
+  d.insert("body".into(), json!(words(r, nb)));
+  if chance(r, 5, 6) {
+    let nt = r.gen_range(1..4);
+    d.insert("title".into(), json!(words(r, nt)));
+  }
+  match r.gen_range(0..4) {
+    0 => {}
+    1 => {
+      d.insert("tag".into(), json!([format!("t{}", r.gen_range(0..4)), format!("T{}", r.gen_range(0..2))]));
+    }
+    _ => {
+      d.insert("tag".into(), json!(format!("t{}", r.gen_range(0..4))));
+    }
+  }
+  if chance(r, 2, 3) {
+    d.insert("cat".into(), json!(format!("c{}", r.gen_range(0..3))));
+  }
+  if chance(r, 5, 6) {
+    d.insert("lang".into(), json!(*pick(r, &["en", "fr", "ja", "de"])));
+  }
+  if chance(r, 5, 6) {
+    d.insert("year".into(), json!(r.gen_range(1995..2025)));
+  }
+  if chance(r, 5, 6) {
+    d.insert("price".into(), json!(r.gen_range(0..20000) as f64 / 100.0));
+  }
+  if chance(r, 1, 2) {
+    d.insert("views".into(), json!(r.gen_range(-5i64..100000)));
+  }
+  let nc = r.gen_range(0..3);
+  if nc > 0 {
+    let items: Vec<Value> = (0..nc)
+      .map(|_| json!({"author": format!("a{}", r.gen_range(0..3)), "score": r.gen_range(0..10)}))
+      .collect();
+    d.insert("comment".into(), Value::Array(items));
+  }
+  if k == 1 && chance(r, 4, 5) {
+    d.insert("emb".into(), json!([r.gen_range(1..100) as f64 / 10.0, r.gen_range(-50..50) as f64 / 10.0]));
+  }
+  Value::Object(d)
+}
+
+/// Builds index k (`old` = stop after the first commit, i.e. the previous generation).
+fn build_index(root: &Path, k: usize, seed: u64, old: bool) -> Result<()> {
+  let schema = schema_from_json(index_schema(k));
+  let mut o = opts(root, StorageType::Filesystem);
+  o.enable_positions = k != 1;
+  let idx = Index::create(root, schema, o)?;
+  let mut r = rng(seed, 9_100 + k as u64);
+  let n = 18 + 4 * k;
+  let mut w = idx.writer()?;
+  for i in 0..n {
+    let doc = random_doc(k, i, &mut r);
+    w.add_document(&doc_from_json(doc))?;
+    if i + 1 == n / 2 {
+      w.commit()?;
+      if old {
+        return Ok(());
+      }
+    }
+  }
+  w.commit()?;
+  let dels: Vec<String> = (0..3).map(|_| format!("d{}", r.gen_range(0..n))).collect();
+  w.delete_documents(&dels)?;
+  w.commit()?;
+  Ok(())
+}
+
+// ------------------------------------------------------------------------------------------------
+// Class vector -> concrete request JSON
+// ------------------------------------------------------------------------------------------------
+
+fn term(field: &str, value: &str) -> Value {
+  json!({"type": "term", "field": field, "value": value})
+}
+
+fn query_json(c: &str) -> Result<Value> {
+  Ok(match c {
+    "query_string" => json!({"type": "query_string", "query": "rust search"}),
+    "match_all" => json!({"type": "match_all"}),
+    "term" => term("body", "rust"),
+    "prefix" => json!({"type": "prefix", "field": "title", "value": "ru", "max_expansions": 50}),
+    "wildcard" => json!({"type": "wildcard", "field": "title", "value": "r*st", "max_expansions": 100}),
+    "regex" => json!({"type": "regex", "field": "title", "value": "r(ust|uby)", "max_expansions": 100}),
+    "phrase" => json!({"type": "phrase", "field": "body", "terms": ["search", "rust"], "slop": 1}),
+    "multi_match" => json!({"type": "multi_match", "query": "rust search", "match_type": "best_fields",
+      "fields": [{"field": "title", "boost": 2.0}, {"field": "body"}], "operator": "or",
+      "tie_breaker": 0.2, "minimum_should_match": "75%"}),
+    "dis_max" => json!({"type": "dis_max", "tie_breaker": 0.4,
+      "queries": [term("title", "rust"), term("body", "rust")]}),
+    "bool" => json!({"type": "bool", "must": [term("body", "rust")], "should": [term("title", "search")],
+      "must_not": [term("body", "zeta")], "filter": [{"I64Range": {"field": "year", "min": 1990, "max": 2030}}]}),
+    "function_score" => json!({"type": "function_score", "query": {"type": "match_all"}, "functions": [
+        {"type": "weight", "weight": 2.0, "filter": {"KeywordEq": {"field": "tag", "value": "t1"}}},
+        {"type": "decay", "field": "year", "origin": 2020, "scale": 30, "offset": 0, "decay": 0.5, "function": "linear"},
+        {"type": "field_value_factor", "field": "price", "factor": 0.25, "modifier": "log1p", "missing": 0.0}],
+      "score_mode": "sum", "boost_mode": "sum", "max_boost": 5.0, "min_score": 0.5}),
+    "script_score" => json!({"type": "script_score", "query": {"type": "match_all"},
+      "script": "_score + price * weight", "params": {"weight": 0.1}}),
+    "constant_score" => json!({"type": "constant_score", "filter": {"KeywordEq": {"field": "tag", "value": "t1"}}}),
+    "rank_feature" => json!({"type": "rank_feature", "field": "price", "modifier": "sqrt"}),
+    "legacy_string" => json!("rust search"),
+    "dup_term" => json!({"type": "bool", "should": [term("body", "rust"), term("body", "rust")]}),
+    "dup_term_dis_max" => json!({"type": "dis_max", "queries": [term("body", "rust"), term("body", "rust")]}),
+    "wildcard_dense" => json!({"type": "wildcard", "field": "body", "value": "*r*u*?*s*t*?*a*"}),
+    "wildcard_only_star" => json!({"type": "wildcard", "field": "body", "value": "*"}),
+    "regex_invalid" => json!({"type": "regex", "field": "title", "value": "r(ust"}),
+    "regex_nested_quantifiers" => json!({"type": "regex", "field": "body", "value": "(r*)*(u*)*(s*)*t+x"}),
+    "regex_huge_repeat" => json!({"type": "regex", "field": "body", "value": "(ru){1000}{1000}"}),
+    "regex_empty" => json!({"type": "regex", "field": "body", "value": ""}),
+    "regex_multibyte" => json!({"type": "regex", "field": "body", "value": "sy.t\u{e8}me|\u{65e5}\u{672c}.*|[\u{3b1}-\u{3c9}]+"}),
+    "phrase_no_terms" => json!({"type": "phrase", "field": "body", "terms": []}),
+    "phrase_huge_slop" => json!({"type": "phrase", "field": "body", "terms": ["rust", "search"], "slop": UMAX}),
+    "multi_match_no_fields" => json!({"type": "multi_match", "query": "rust", "fields": []}),
+    "multi_match_bad_msm" => json!({"type": "multi_match", "query": "rust search", "fields": ["body"],
+      "minimum_should_match": "abc%", "tie_breaker": 0.5}),
+    "dis_max_empty" => json!({"type": "dis_max", "queries": []}),
+    "bool_empty" => json!({"type": "bool"}),
+    "bool_only_must_not" => json!({"type": "bool", "must_not": [term("body", "rust")], "minimum_should_match": 5}),
+    "bool_deep" => {
+      let mut q = term("body", "rust");
+      for i in 0..40 {
+        q = if i % 2 == 0 { json!({"type": "bool", "must": [q]}) } else { json!({"type": "dis_max", "queries": [q]}) };
+      }
+      q
+    }
+    "function_score_extreme" => json!({"type": "function_score", "query": term("body", "rust"), "functions": [
+        {"type": "decay", "field": "year", "origin": 1e308, "scale": 0, "decay": 0.0, "function": "gauss"},
+        {"type": "field_value_factor", "field": "price", "factor": 3.0e38, "modifier": "log", "missing": -1.0},
+        {"type": "decay", "field": "price", "origin": 0, "scale": -1, "offset": -5, "decay": 2.0, "function": "exp"},
+        {"type": "weight", "weight": -3.0e38}],
+      "score_mode": "multiply", "boost_mode": "replace", "max_boost": -1.0, "min_score": 3.0e38}),
+    "function_score_no_functions" => json!({"type": "function_score", "query": term("body", "rust"), "functions": []}),
+    "script_syntax_error" => json!({"type": "script_score", "query": {"type": "match_all"}, "script": "_score + * 2 )"}),
+    "script_div_zero" => json!({"type": "script_score", "query": {"type": "match_all"}, "script": "_score / (price - price)"}),
+    "script_unknown_field" => json!({"type": "script_score", "query": {"type": "match_all"}, "script": "_score + nosuch"}),
+    "script_too_long" => json!({"type": "script_score", "query": {"type": "match_all"}, "script": "1+".repeat(300) + "1"}),
+    "script_deep_parens" => json!({"type": "script_score", "query": {"type": "match_all"},
+      "script": "(".repeat(60) + "1" + &")".repeat(60)}),
+    "script_multibyte" => json!({"type": "script_score", "query": {"type": "match_all"}, "script": "_score + \u{e9}t\u{e9} * 2"}),
+    "rank_feature_text_field" => json!({"type": "rank_feature", "field": "body", "modifier": "log", "missing": -1.0}),
+    "term_unknown_field" => term("nosuch", "rust"),
+    "term_multibyte" => json!({"type": "bool", "should": [term("body", "syst\u{e8}me"), term("body", "\u{65e5}\u{672c}\u{8a9e}"), term("title", "\u{1f680}")]}),
+    "term_empty" => term("body", ""),
+    "query_string_operators" => json!({"type": "query_string", "query": "body:\"rust -  title: \"\" - -- :x \"", "fields": ["body", "nosuch"]}),
+    "prefix_zero_expansions" => json!({"type": "prefix", "field": "title", "value": "r", "max_expansions": 0}),
+    "prefix_huge_expansions" => json!({"type": "prefix", "field": "title", "value": "", "max_expansions": UMAX}),
+    "vector" => json!({"type": "vector", "field": "emb", "vector": [1.0, 0.0], "k": 3, "alpha": 0.0}),
+    "vector_wrong_dim" => json!({"type": "vector", "field": "emb", "vector": [1.0], "k": 3, "alpha": 0.5}),
+    "vector_unknown_field" => json!({"type": "vector", "field": "nosuch", "vector": [1.0, 0.0], "k": 0}),
+    other => bail!("unknown query class {other}"),
+  })
+}
+
+fn boost_json(c: &str) -> Result<Option<Value>> {
+  Ok(match c {
+    "none" => None,
+    "positive" => Some(json!(2.0)),
+    "zero" => Some(json!(0.0)),
+    "negative" => Some(json!(-1.0)),
+    "huge" => Some(json!(3.0e38)),
+    "tiny" => Some(json!(1.0e-40)),
+    "negative_zero" => Some(json!(-0.0)),
+    other => bail!("unknown boost class {other}"),
+  })
+}
+
+fn fuzzy_json(c: &str) -> Result<Option<Value>> {
+  Ok(match c {
+    "none" => None,
+    "readme" => Some(json!({"max_edits": 1, "prefix_length": 1, "max_expansions": 20, "min_length": 3})),
+    "edits_0" => Some(json!({"max_edits": 0})),
+    "edits_255" => Some(json!({"max_edits": 255, "prefix_length": 0, "min_length": 1})),
+    "prefix_huge" => Some(json!({"max_edits": 2, "prefix_length": UMAX})),
+    "expansions_0" => Some(json!({"max_edits": 2, "max_expansions": 0})),
+    "min_length_0" => Some(json!({"max_edits": 2, "prefix_length": 0, "max_expansions": UMAX, "min_length": 0})),
+    other => bail!("unknown fuzzy class {other}"),
+  })
+}
+
+fn sort_json(c: &str) -> Result<Option<Value>> {
+  Ok(match c {
+    "none" => None,
+    "score_desc" => Some(json!([{"field": "_score", "order": "desc"}])),
+    "numeric_fast" => Some(json!([{"field": "year", "order": "desc"}])),
+    "keyword_fast" => Some(json!([{"field": "tag"}])),
+    "multi" => Some(json!([{"field": "year", "order": "desc"}, {"field": "_score", "order": "desc"}])),
+    "score_asc" => Some(json!([{"field": "_score", "order": "asc"}])),
+    "nested_fast" => Some(json!([{"field": "comment.score", "order": "asc"}, {"field": "price"}])),
+    "duplicate" => Some(json!([{"field": "year"}, {"field": "year", "order": "desc"}, {"field": "_score"}, {"field": "_score"}])),
+    "unknown_field" => Some(json!([{"field": "nosuch", "order": "asc"}])),
+    "non_fast_field" => Some(json!([{"field": "views", "order": "asc"}])),
+    "text_field" => Some(json!([{"field": "body"}])),
+    other => bail!("unknown sort class {other}"),
+  })
+}
+
+fn hl_field(pre: &str, post: &str, size: u64, n: u64) -> Value {
+  json!({"pre_tag": pre, "post_tag": post, "fragment_size": size, "number_of_fragments": n})
+}
+
+/// (highlight_field, highlight)
+fn highlight_json(c: &str) -> Result<(Option<Value>, Option<Value>)> {
+  Ok(match c {
+    "none" => (None, None),
+    "legacy_field" => (Some(json!("body")), None),
+    "config" => (None, Some(json!({"fields": {"body": hl_field("<em>", "</em>", 120, 2), "title": hl_field("<b>", "</b>", 60, 1)}}))),
+    "legacy_unknown_field" => (Some(json!("nosuch")), None),
+    "config_unknown_field" => (None, Some(json!({"fields": {"nosuch": hl_field("<em>", "</em>", 120, 2), "year": {}}}))),
+    "fragment_0" => (None, Some(json!({"fields": {"body": hl_field("<em>", "</em>", 0, 2)}}))),
+    "fragment_huge" => (None, Some(json!({"fields": {"body": hl_field("<em>", "</em>", UMAX, 3)}}))),
+    "fragments_0" => (None, Some(json!({"fields": {"body": hl_field("<em>", "</em>", 50, 0)}}))),
+    "fragments_huge" => (None, Some(json!({"fields": {"body": hl_field("<em>", "</em>", 1, UMAX)}}))),
+    "tags_regex_chars" => (Some(json!("title")), Some(json!({"fields": {"body": hl_field("$1\\", ")(${0}", 30, 2)}}))),
+    "tags_multibyte" => (None, Some(json!({"fields": {"body": hl_field("\u{ab}\u{e9}", "\u{1f680}\u{bb}", 9, 3)}}))),
+    "fragment_odd_multibyte" => (Some(json!("body")), Some(json!({"fields": {"body": hl_field("[", "]", 7, 4), "title": hl_field("[", "]", 3, 2)}}))),
+    other => bail!("unknown highlight class {other}"),
+  })
+}
+
+fn aggs_json(c: &str) -> Result<Option<Value>> {
+  let terms = || json!({"type": "terms", "field": "tag", "size": 5});
+  let hist = |extra: Value| -> Value {
+    let mut h = json!({"type": "histogram", "field": "year", "interval": 5});
+    for (k, v) in extra.as_object().unwrap() {
+      h[k] = v.clone();
+    }
+    h
+  };
+  Ok(Some(match c {
+    "none" => return Ok(None),
+    "terms" => json!({"a": terms()}),
+    "stats" => json!({"a": {"type": "stats", "field": "year"}}),
+    "histogram" => json!({"a": hist(json!({}))}),
+    "range" => json!({"a": {"type": "range", "field": "price", "keyed": false,
+      "ranges": [{"to": 10.0}, {"key": "mid", "from": 10.0, "to": 50.0}, {"from": 50.0}]}}),
+    "terms_unknown_field" => json!({"a": {"type": "terms", "field": "nosuch"}}),
+    "terms_non_fast" => json!({"a": {"type": "terms", "field": "cat"}}),
+    "stats_keyword_field" => json!({"a": {"type": "stats", "field": "tag"}}),
+    "terms_size_0" => json!({"a": {"type": "terms", "field": "tag", "size": 0, "shard_size": 0, "min_doc_count": 0, "missing": "none"}}),
+    "terms_sub_aggs" => json!({"a": {"type": "terms", "field": "tag", "aggs": {
+      "s": {"type": "stats", "field": "year"}, "top": {"type": "top_hits", "size": 2, "highlight_field": "body"},
+      "es": {"type": "extended_stats", "field": "price"}, "vc": {"type": "value_count", "field": "comment.score"}}}}),
+    "histogram_interval_0" => json!({"a": hist(json!({"interval": 0}))}),
+    "histogram_interval_negative" => json!({"a": hist(json!({"interval": -5}))}),
+    "histogram_interval_tiny" => json!({"a": hist(json!({"interval": 1e-300, "min_doc_count": 1}))}),
+    "histogram_bounds_inverted" => json!({"a": hist(json!({"min_doc_count": 0, "extended_bounds": {"min": 2030.0, "max": 1990.0}, "hard_bounds": {"min": 2010.0, "max": 2000.0}}))}),
+    "histogram_bounds_wide" => json!({"a": hist(json!({"interval": 1, "min_doc_count": 0, "extended_bounds": {"min": -1.0e6, "max": 1.0e6}, "offset": 0.5, "missing": -7.5}))}),
+    "range_inverted" => json!({"a": {"type": "range", "field": "price", "keyed": true, "ranges": [{"from": 50.0, "to": 10.0}, {"key": "", "from": 1e308, "to": -1e308}]}}),
+    "range_empty" => json!({"a": {"type": "range", "field": "price", "keyed": true, "ranges": []}}),
+    "date_histogram" => json!({"a": {"type": "date_histogram", "field": "year", "fixed_interval": "1d", "min_doc_count": 1}}),
+    "date_histogram_bad_interval" => json!({"a": {"type": "date_histogram", "field": "year", "fixed_interval": "0d", "calendar_interval": "fortnight", "offset": "-x"}}),
+    "date_histogram_zero_interval" => json!({"a": {"type": "date_histogram", "field": "year", "fixed_interval": "0s",
+      "min_doc_count": 0, "extended_bounds": {"min": "0", "max": "1000"}}}),
+    "date_range_bad_date" => json!({"a": {"type": "date_range", "field": "year", "keyed": false, "format": "%Q", "ranges": [{"from": "not a date", "to": "2020-13-45"}]}}),
+    "percentiles_out_of_range" => json!({"a": {"type": "percentiles", "field": "price", "percents": [-5.0, 0.0, 150.0, 1e308], "missing": "x"}}),
+    "percentile_ranks" => json!({"a": {"type": "percentile_ranks", "field": "price", "values": [-1e308, 0.0, 1e308]}}),
+    "cardinality_precision_0" => json!({"a": {"type": "cardinality", "field": "tag", "precision_threshold": 0, "missing": {"x": 1}},
+      "b": {"type": "cardinality", "field": "year", "precision_threshold": UMAX}}),
+    "extended_stats_missing_string" => json!({"a": {"type": "extended_stats", "field": "year", "missing": "abc"}, "b": {"type": "value_count", "field": "price", "missing": [1]}}),
+    "composite" => json!({"a": {"type": "composite", "size": 2, "sources": [
+      {"type": "terms", "name": "tag", "field": "tag"}, {"type": "histogram", "name": "year", "field": "year", "interval": 5}]}}),
+    "composite_bad_after" => json!({"a": {"type": "composite", "size": 2, "after": {"nosuch": [1], "tag": {"x": null}},
+      "sources": [{"type": "terms", "name": "tag", "field": "tag"}]}}),
+    "composite_size_0" => json!({"a": {"type": "composite", "size": 0, "sources": []}}),
+    "composite_interval_0" => json!({"a": {"type": "composite", "size": 3, "sources": [{"type": "histogram", "name": "y", "field": "year", "interval": 0}]}}),
+    "top_hits_huge" => json!({"a": {"type": "top_hits", "size": UMAX, "from": UMAX, "sort": [{"field": "year"}], "highlight_field": "nosuch"}}),
+    "filter_agg" => json!({"a": {"type": "filter", "filter": {"Not": {"Nested": {"path": "comment", "filter": {"KeywordEq": {"field": "comment.author", "value": "a1"}}}}}, "aggs": {"t": terms()}}}),
+    "significant_terms" => json!({"a": {"type": "significant_terms", "field": "tag", "size": 5, "min_doc_count": 0, "background_filter": {"KeywordEq": {"field": "tag", "value": "t1"}}}}),
+    "rare_terms" => json!({"a": {"type": "rare_terms", "field": "tag", "max_doc_count": 0, "size": 0}}),
+    "sampling_probability_2" => json!({"a": {"type": "terms", "field": "tag", "sampling": {"probability": 2.0, "size": 0, "seed": 42}}}),
+    "sampling_negative" => json!({"a": {"type": "histogram", "field": "year", "interval": 5, "sampling": {"probability": -0.5, "seed": UMAX}}}),
+    "pipeline_no_parent" => json!({"a": {"type": "derivative", "buckets_path": "x"}, "b": {"type": "avg_bucket", "buckets_path": ""},
+      "c": {"type": "bucket_sort", "sort": []}}),
+    "pipeline_bad_path" => json!({"a": hist(json!({"aggs": {"s": {"type": "stats", "field": "price"},
+      "p": {"type": "avg_bucket", "buckets_path": "no.such.path"}, "d": {"type": "derivative", "buckets_path": "s.nosuch", "unit": 0.0},
+      "q": {"type": "sum_bucket", "buckets_path": "..."}}}))}),
+    "bucket_script_bad" => json!({"a": hist(json!({"aggs": {"s": {"type": "stats", "field": "price"},
+      "b": {"type": "bucket_script", "buckets_path": {"x": "s.avg", "c": "_count"}, "script": "x / (c - c) + ("},
+      "b2": {"type": "bucket_script", "buckets_path": {}, "script": ""}}}))}),
+    "moving_avg_window_0" => json!({"a": hist(json!({"aggs": {"s": {"type": "stats", "field": "price"},
+      "m": {"type": "moving_avg", "buckets_path": "s.avg", "window": 0, "predict": 0, "gap_policy": "insert_zeros"}}}))}),
+    "moving_avg_predict_huge" => json!({"a": hist(json!({"aggs": {"s": {"type": "stats", "field": "price"},
+      "m": {"type": "moving_avg", "buckets_path": "s.avg", "window": 3, "predict": UMAX}}}))}),
+    "bucket_sort_unknown" => json!({"a": {"type": "terms", "field": "tag", "aggs": {
+      "o": {"type": "bucket_sort", "sort": [{"nosuch": "desc"}], "from": UMAX, "size": 0}}}}),
+    "deep_sub_aggs" => {
+      let mut a = json!({"type": "stats", "field": "year"});
+      for i in 0..8 {
+        a = json!({"type": if i % 2 == 0 { "terms" } else { "histogram" }, "field": if i % 2 == 0 { "tag" } else { "year" },
+                   "interval": 10, "aggs": {"n": a}});
+      }
+      json!({"a": a})
+    }
+    other => bail!("unknown aggs class {other}"),
+  }))
+}
+
+fn cursor_state_json(generation: u32, returned: u64) -> String {
+  json!({"version": 2, "generation": generation, "returned": returned, "plan_hash": 0, "segment_ord": 0,
+         "doc_id": 0, "values": []})
+    .to_string()
+}
+
+fn hex(bytes: &[u8]) -> String {
+  bytes.iter().map(|b| format!("{b:02x}")).collect()
+}
+
+struct Ctx {
+  generations: Vec<u32>,
+  exec: Executor,
+}
+
+fn score_path(sort_cls: &str) -> bool {
+  matches!(sort_cls, "none" | "score_desc")
+}
+
+/// Base request (everything except the cursor).
+fn base_request(cls: &Value) -> Result<Value> {
+  let g = |d: &str| -> &str { cls[d].as_str().unwrap_or("") };
+  let mut q = query_json(g("query"))?;
+  if let Some(b) = boost_json(g("boost"))? {
+    if q.is_object() {
+      q["boost"] = b;
+    }
+  }
+  let mut req = json!({"query": q, "return_stored": true, "highlight_field": null});
+  req["limit"] = match g("limit") {
+    "normal" => json!(3),
+    "one" => json!(1),
+    "zero" => json!(0),
+    "huge" => json!(UMAX),
+    other => bail!("unknown limit class {other}"),
+  };
+  match g("candidate") {
+    "none" => {}
+    "zero" => req["candidate_size"] = json!(0),
+    "huge" => req["candidate_size"] = json!(UMAX),
+    "small" => req["candidate_size"] = json!(1),
+    other => bail!("unknown candidate class {other}"),
+  }
+  if let Some(f) = fuzzy_json(g("fuzzy"))? {
+    req["fuzzy"] = f;
+  }
+  if let Some(s) = sort_json(g("sort"))? {
+    req["sort"] = s;
+  }
+  let (hf, h) = highlight_json(g("highlight"))?;
+  if let Some(hf) = hf {
+    req["highlight_field"] = hf;
+  }
+  if let Some(h) = h {
+    req["highlight"] = h;
+  }
+  if let Some(a) = aggs_json(g("aggs"))? {
+    req["aggs"] = a;
+  }
+  match g("collapse") {
+    "none" => {}
+    "keyword_fast" => req["collapse"] = json!({"field": "lang"}),
+    "multi_valued" => req["collapse"] = json!({"field": "tag"}),
+    "inner_hits" => req["collapse"] = json!({"field": "lang", "inner_hits": {"size": 2, "from": 0, "sort": [{"field": "_score", "order": "desc"}]}}),
+    "unknown_field" => req["collapse"] = json!({"field": "nosuch"}),
+    "numeric_field" => req["collapse"] = json!({"field": "year"}),
+    "inner_hits_huge" => req["collapse"] = json!({"field": "lang", "inner_hits": {"size": UMAX, "from": UMAX}}),
+    "inner_hits_bad_sort" => req["collapse"] = json!({"field": "lang", "inner_hits": {"size": 1, "sort": [{"field": "nosuch"}]}}),
+    other => bail!("unknown collapse class {other}"),
+  }
+  match g("rescore") {
+    "none" => {}
+    "phrase" => req["rescore"] = json!({"window_size": 50, "query": {"type": "phrase", "field": "body", "terms": ["search", "rust"], "slop": 1}, "score_mode": "total"}),
+    "window_0" => req["rescore"] = json!({"window_size": 0, "query": term("body", "rust"), "score_mode": "multiply"}),
+    "window_huge" => req["rescore"] = json!({"window_size": UMAX, "query": term("body", "search"), "score_mode": "min"}),
+    "bad_query" => req["rescore"] = json!({"window_size": 5, "query": {"type": "regex", "field": "body", "value": "r(", "boost": -1.0}}),
+    other => bail!("unknown rescore class {other}"),
+  }
+  match g("flags") {
+    "none" => {}
+    "explain" => req["explain"] = json!(true),
+    "profile" => req["profile"] = json!(true),
+    "explain_profile" => {
+      req["explain"] = json!(true);
+      req["profile"] = json!(true);
+    }
+    "no_hits" => req["return_hits"] = json!(false),
+    "no_stored" => req["return_stored"] = json!(false),
+    other => bail!("unknown flags class {other}"),
+  }
+  match g("suggest") {
+    "none" => {}
+    "completion" => req["suggest"] = json!({"s": {"type": "completion", "field": "title", "prefix": "ru", "size": 3}}),
+    "fuzzy" => req["suggest"] = json!({"s": {"type": "completion", "field": "title", "prefix": "rsut", "size": 5,
+      "fuzzy": {"max_edits": 2, "prefix_length": 0, "max_expansions": UMAX, "min_length": 0}}}),
+    "unknown_field" => req["suggest"] = json!({"s": {"type": "completion", "field": "nosuch", "prefix": "ru"}, "t": {"type": "completion", "field": "year", "prefix": "2"}}),
+    "size_0" => req["suggest"] = json!({"s": {"type": "completion", "field": "title", "prefix": "r", "size": 0}, "t": {"type": "completion", "field": "body", "prefix": "s", "size": UMAX}}),
+    "prefix_multibyte" => req["suggest"] = json!({"s": {"type": "completion", "field": "body", "prefix": "sy\u{e8}", "size": 3, "fuzzy": {"max_edits": 1, "prefix_length": 3, "min_length": 1}},
+      "t": {"type": "completion", "field": "body", "prefix": "\u{65e5}", "fuzzy": {"max_edits": 2, "prefix_length": 1}}}),
+    "prefix_empty" => req["suggest"] = json!({"s": {"type": "completion", "field": "title", "prefix": "", "size": 3}}),
+    other => bail!("unknown suggest class {other}"),
+  }
+  match g("execution") {
+    "default" => {}
+    "bm25" => req["execution"] = json!("bm25"),
+    "bmw" => req["execution"] = json!("bmw"),
+    "bmw_block_0" => {
+      req["execution"] = json!("bmw");
+      req["bmw_block_size"] = json!(0);
+    }
+    "bmw_block_1" => {
+      req["execution"] = json!("bmw");
+      req["bmw_block_size"] = json!(1);
+    }
+    "bmw_block_huge" => {
+      req["execution"] = json!("bmw");
+      req["bmw_block_size"] = json!(UMAX);
+    }
+    other => bail!("unknown execution class {other}"),
+  }
+  Ok(req)
+}
+
+/// next_cursor of page 1 of `req` on `reader`; Err(reason) when the class cannot be instantiated.
+fn page1_cursor(ctx: &mut Ctx, old: bool, idx: usize, req: &Value) -> std::result::Result<String, String> {
+  let mut r = req.clone();
+  if let Some(o) = r.as_object_mut() {
+    o.remove("cursor");
+    o.remove("return_hits");
+  }
+  let sr: SearchRequest = serde_json::from_value(r).map_err(|e| format!("page 1 does not deserialise: {e}"))?;
+  match ctx.exec.run(old, idx, sr) {
+    Exec::Ok(Some(c)) => Ok(c),
+    Exec::Ok(None) => Err("page 1 has no next_cursor".into()),
+    Exec::Err(e) => Err(format!("page 1 failed: {e}")),
+    Exec::Panic(p) => Err(format!("page 1 panicked: {}", p.msg)),
+    Exec::Hang => Err("page 1 hangs".into()),
+  }
+}
+
+fn instantiate(ctx: &mut Ctx, idx: usize, cls: &Value, case_no: u64) -> std::result::Result<Value, String> {
+  let mut req = base_request(cls).map_err(|e| format!("{e:#}"))?;
+  let cursor_cls = cls["cursor"].as_str().unwrap_or("");
+  let sort_cls = cls["sort"].as_str().unwrap_or("");
+  let generation = ctx.generations[idx];
+  let cursor: Option<String> = match cursor_cls {
+    "none" => None,
+    "valid" => Some(page1_cursor(ctx, false, idx, &req)?),
+    "stale_generation" => Some(page1_cursor(ctx, true, idx, &req)?),
+    "other_sort" => {
+      let mut other = req.clone();
+      if score_path(sort_cls) {
+        other["sort"] = json!([{"field": "price", "order": "asc"}]);
+      } else if let Some(o) = other.as_object_mut() {
+        o.remove("sort");
+      }
+      Some(page1_cursor(ctx, false, idx, &other)?)
+    }
+    "deep" => Some(if score_path(sort_cls) {
+      let mut b = vec![1u8];
+      b.extend_from_slice(&generation.to_be_bytes());
+      b.extend_from_slice(&1.0f32.to_bits().to_be_bytes());
+      b.extend_from_slice(&0u32.to_be_bytes());
+      b.extend_from_slice(&0u32.to_be_bytes());
+      b.extend_from_slice(&60_000u32.to_be_bytes());
+      hex(&b)
+    } else {
+      hex(cursor_state_json(generation, 60_000).as_bytes())
+    }),
+    "wrong_length" => Some("0123456789abcdef0123456789abcdef01234567".into()),
+    "nonhex_ascii" => Some("zz".repeat(21)),
+    "hex_random" => {
+      let mut r = rng(case_no, 77);
+      Some((0..42).map(|_| char::from_digit(r.gen_range(0..16), 16).unwrap()).collect())
+    }
+    "utf8_even" => Some(format!("a{}a", "\u{e9}".repeat(20))),
+    "utf8_short_even" => Some("a\u{e9}a".into()),
+    "utf8_odd" => Some(format!("{}a", "\u{e9}".repeat(20))),
+    "utf8_aligned" => Some("\u{e9}".repeat(21)),
+    "json_garbage" => Some(hex(b"{\"version\":2,,, not json \xc3\xa9")),
+    "json_wrong_types" => Some(hex(
+      json!({"version": "2", "generation": [], "returned": -1, "plan_hash": 1.5, "segment_ord": null,
+             "doc_id": {}, "values": [{"t": "score", "v": "x"}, {"t": "nosuch"}]})
+        .to_string()
+        .as_bytes(),
+    )),
+    "empty" => Some(String::new()),
+    other => return Err(format!("unknown cursor class {other}")),
+  };
+  if let Some(c) = cursor {
+    req["cursor"] = json!(c);
+  }
+  Ok(req)
+}
+
+// ------------------------------------------------------------------------------------------------
+// Execution under catch_unwind + watchdog
+// ------------------------------------------------------------------------------------------------
+
+#[derive(Clone, Debug, Default)]
+struct PanicInfo {
+  loc: String,
+  msg: String,
+}
+
+static LAST_PANIC: Mutex<Option<PanicInfo>> = Mutex::new(None);
+
+fn install_panic_hook() {
+  std::panic::set_hook(Box::new(|info| {
+    let loc = info
+      .location()
+      .map(|l| {
+        let f = l.file();
+        let short = f.rsplit("searchlite-core/").next().unwrap_or(f);
+        format!("{}:{}", short, l.line())
+      })
+      .unwrap_or_default();
+    let msg = info
+      .payload()
+      .downcast_ref::<String>()
+      .cloned()
+      .or_else(|| info.payload().downcast_ref::<&str>().map(|s| s.to_string()))
+      .unwrap_or_else(|| "panic".into());
+    *LAST_PANIC.lock().unwrap() = Some(PanicInfo { loc, msg });
+  }));
+}
+
+enum Exec {
+  Ok(Option<String>),
+  Err(String),
+  Panic(PanicInfo),
+  Hang,
+}
+
+/// (old generation?, index number, request)
+type Job = (bool, usize, SearchRequest);
+
+fn open_readers(dir: &Path) -> Result<(Vec<IndexReader>, Vec<IndexReader>)> {
+  let mut cur = vec![];
+  let mut old = vec![];
+  for k in 0..3 {
+    let o = opts(&dir.join(format!("idx{k}")), StorageType::Filesystem);
+    cur.push(Index::open(o)?.reader()?);
+    let o = opts(&dir.join(format!("old{k}")), StorageType::Filesystem);
+    old.push(Index::open(o)?.reader()?);
+  }
+  Ok((cur, old))
+}
+
+struct Executor {
+  dir: PathBuf,
+  tx: mpsc::Sender<Job>,
+  rx: mpsc::Receiver<Exec>,
+  timeout: Duration,
+  pub hangs: usize,
+}
+
+impl Executor {
+  /// The worker owns its readers (IndexReader is Send but not Sync).
+  fn spawn_worker(dir: &Path) -> (mpsc::Sender<Job>, mpsc::Receiver<Exec>) {
+    let (tx, jrx) = mpsc::channel::<Job>();
+    let (rtx, rx) = mpsc::channel::<Exec>();
+    let dir = dir.to_path_buf();
+    // default stack size of a spawned thread (2 MiB), as for a server worker thread
+    std::thread::Builder::new()
+      .name("search-worker".into())
+      .spawn(move || {
+        let (cur, old) = open_readers(&dir).expect("open readers");
+        while let Ok((use_old, idx, req)) = jrx.recv() {
+          *LAST_PANIC.lock().unwrap() = None;
+          let reader = if use_old { &old[idx] } else { &cur[idx] };
+          let res = catch_unwind(AssertUnwindSafe(|| reader.search(&req)));
+          let out = match res {
+            Ok(Ok(r)) => Exec::Ok(r.next_cursor),
+            Ok(Err(e)) => Exec::Err(format!("{e:#}")),
+            Err(_) => Exec::Panic(LAST_PANIC.lock().unwrap().clone().unwrap_or_default()),
+          };
+          if rtx.send(out).is_err() {
+            break;
+          }
+        }
+      })
+      .expect("spawn worker");
+    (tx, rx)
+  }
+
+  fn new(dir: &Path, timeout: Duration) -> Self {
+    let (tx, rx) = Self::spawn_worker(dir);
+    Self { dir: dir.to_path_buf(), tx, rx, timeout, hangs: 0 }
+  }
+
+  fn run(&mut self, old: bool, idx: usize, req: SearchRequest) -> Exec {
+    if self.tx.send((old, idx, req)).is_err() {
+      let (tx, rx) = Self::spawn_worker(&self.dir);
+      self.tx = tx;
+      self.rx = rx;
+      return Exec::Err("worker unavailable".into());
+    }
+    match self.rx.recv_timeout(self.timeout) {
+      Ok(out) => out,
+      Err(_) => {
+        // abandon the worker (it keeps its thread) and continue with a fresh one
+        self.hangs += 1;
+        let (tx, rx) = Self::spawn_worker(&self.dir);
+        self.tx = tx;
+        self.rx = rx;
+        Exec::Hang
+      }
+    }
+  }
+}
+
+fn panic_class(p: &PanicInfo) -> &'static str {
+  if p.msg.contains("Utf8Error") && p.loc.contains("api/reader.rs") {
+    "cursor_utf8"
+  } else if p.msg.contains("Inconsistent leaf for term key") {
+    "leaf_assert"
+  } else if p.msg.contains("pipeline aggregations are applied during finalize") {
+    "pipeline_unreachable"
+  } else if p.msg.contains("capacity overflow") {
+    "capacity_overflow"
+  } else if p.msg.contains("attempt to add with overflow") && p.loc.contains("query/aggs/mod.rs") {
+    "aggs_add_overflow"
+  } else if p.msg.contains("overflow") {
+    "arith_overflow"
+  } else if p.msg.contains("alloc") {
+    "alloc"
+  } else if p.msg.contains("index out of bounds") || p.msg.contains("out of range") {
+    "bounds"
+  } else if p.msg.contains("byte index") || p.msg.contains("char boundary") {
+    "char_boundary"
+  } else {
+    "other"
+  }
+}
+
+fn cursor_features(req: &Value) -> Value {
+  let c = req.get("cursor").and_then(|c| c.as_str());
+  // `__text` carries raw request text when the request itself is not available as a value
+  let text = req.get("__text").and_then(|t| t.as_str()).map(|t| t.to_string()).unwrap_or_else(|| req.to_string());
+  let pipeline_agg = ["derivative", "moving_avg", "bucket_script", "bucket_sort", "avg_bucket", "sum_bucket"]
+    .iter()
+    .any(|t| text.contains(&format!("\"{t}\"")));
+  json!({
+    "hist_bounds": text.contains("extended_bounds") || text.contains("hard_bounds"),
+    "top_hits": text.contains("\"top_hits\""),
+    "moving_avg": text.contains("\"moving_avg\""),
+    "pipeline_agg": pipeline_agg,
+    "cursor_present": c.is_some(),
+    "cursor_nonascii": c.map(|s| !s.is_ascii()).unwrap_or(false),
+    "cursor_bytes": c.map(|s| s.len()).unwrap_or(0),
+  })
+}
+
+const DEFAULTS: [(&str, &str); 14] = [
+  ("cursor", "none"), ("query", "query_string"), ("boost", "none"), ("fuzzy", "none"), ("sort", "none"),
+  ("highlight", "none"), ("aggs", "none"), ("limit", "normal"), ("candidate", "none"), ("collapse", "none"),
+  ("rescore", "none"), ("flags", "none"), ("suggest", "none"), ("execution", "default"),
+];
+
+/// "dim=class" for every dimension that is not at its default.
+fn non_default(cls: &Value) -> Vec<String> {
+  DEFAULTS
+    .iter()
+    .filter_map(|(d, def)| {
+      let c = cls[*d].as_str().unwrap_or("");
+      (c != *def).then(|| format!("{d}={c}"))
+    })
+    .collect()
+}
+
+fn free_cls() -> Value {
+  let dims = ["cursor", "query", "boost", "fuzzy", "sort", "highlight", "aggs", "limit", "candidate",
+              "collapse", "rescore", "flags", "suggest", "execution"];
+  Value::Object(dims.iter().map(|d| (d.to_string(), json!("free"))).collect())
+}
+
+// ------------------------------------------------------------------------------------------------
+// Child: executes plan[start..] and appends one result line per request
+// ------------------------------------------------------------------------------------------------
+
+fn child(args: &Args) -> Result<()> {
+  let dir = PathBuf::from(args.str("dir", ""));
+  let plan_path = args.str("plan", "");
+  let res_path = args.str("results", "");
+  let start = args.usize("start", 0);
+  let timeout = Duration::from_millis(args.u64("timeout-ms", 20_000));
+  install_panic_hook();
+  let mut generations = vec![];
+  for k in 0..3 {
+    let o = opts(&dir.join(format!("idx{k}")), StorageType::Filesystem);
+    let m = Index::open(o)?.manifest();
+    generations.push(m.segments.iter().map(|s| s.generation).max().unwrap_or(0));
+  }
+  let mut ctx = Ctx { generations, exec: Executor::new(&dir, timeout) };
+  // classes / features already observed to hang (hang budget, maintained by the parent)
+  let skip_path = args.str("skip", "");
+  let slow_ms = args.u64("slow-ms", 2_000);
+  let mut skip: BTreeSet<String> = std::fs::read_to_string(&skip_path)
+    .unwrap_or_default()
+    .lines()
+    .map(|l| l.trim().to_string())
+    .filter(|l| !l.is_empty() && !l.starts_with('#'))
+    .collect();
+  // "#dim=class" lines carry the number of slow/hung cases seen so far for that class
+  let mut slow_counts: BTreeMap<String, usize> = BTreeMap::new();
+  for l in std::fs::read_to_string(&skip_path).unwrap_or_default().lines() {
+    if let Some(c) = l.strip_prefix('#') {
+      *slow_counts.entry(c.trim().to_string()).or_insert(0) += 1;
+    }
+  }
+  let plan = std::fs::read_to_string(&plan_path)?;
+  let mut out = std::fs::OpenOptions::new().create(true).append(true).open(&res_path)?;
+  for (i, line) in plan.lines().enumerate() {
+    if i < start || line.trim().is_empty() {
+      continue;
+    }
+    let p: Value = serde_json::from_str(line)?;
+    writeln!(out, "{}", json!({"begin": i}))?;
+    out.flush()?;
+    let idx = p["idx"].as_u64().unwrap() as usize;
+    let budget_hit = if p["src"] == "tlc" {
+      p["cls"].as_object().unwrap().iter().any(|(d, c)| skip.contains(&format!("{d}={}", c.as_str().unwrap_or(""))))
+    } else {
+      let text = if p["src"] == "rand" { p["req"].to_string() } else { p["text"].as_str().unwrap().to_string() };
+      skip.contains("feat=hist_bounds") && (text.contains("extended_bounds") || text.contains("hard_bounds"))
+    };
+    let req_json: std::result::Result<Value, String> = match p["src"].as_str().unwrap() {
+      _ if budget_hit => Err("time budget: class or feature already observed to hang or to be slow".into()),
+      "tlc" => instantiate(&mut ctx, idx, &p["cls"], i as u64),
+      "rand" => Ok(p["req"].clone()),
+      _ => serde_json::from_str::<Value>(p["text"].as_str().unwrap()).map_err(|e| e.to_string()),
+    };
+    let res = match req_json {
+      Err(why) => json!({"i": i, "outcome": "Skip", "why": why}),
+      Ok(rj) => {
+        let parsed: std::result::Result<SearchRequest, String> = if p["src"] == "mut" {
+          serde_json::from_str::<SearchRequest>(p["text"].as_str().unwrap()).map_err(|e| e.to_string())
+        } else {
+          serde_json::from_value::<SearchRequest>(rj.clone()).map_err(|e| e.to_string())
+        };
+        match parsed {
+          Err(e) => json!({"i": i, "outcome": "Skip", "why": format!("does not deserialise: {e}")}),
+          Ok(sr) => {
+            let t0 = Instant::now();
+            let ex = ctx.exec.run(false, idx, sr);
+            let ms = t0.elapsed().as_millis() as u64;
+            let feat = cursor_features(&rj);
+            let text: String = rj.to_string().chars().take(700).collect();
+            match ex {
+              Exec::Ok(_) => json!({"i": i, "outcome": "Ok", "ms": ms, "feat": feat, "req": text, "msg": "", "pcls": "-", "loc": ""}),
+              Exec::Err(e) => json!({"i": i, "outcome": "Err", "ms": ms, "feat": feat, "req": text,
+                                     "msg": e.chars().take(160).collect::<String>(), "pcls": "-", "loc": ""}),
+              Exec::Panic(pi) => json!({"i": i, "outcome": "Panic", "ms": ms, "feat": feat, "req": text,
+                                        "msg": pi.msg.chars().take(200).collect::<String>(), "pcls": panic_class(&pi), "loc": pi.loc}),
+              Exec::Hang => json!({"i": i, "outcome": "Hang", "ms": ms, "feat": feat, "req": text, "msg": "", "pcls": "-", "loc": ""}),
+            }
+          }
+        }
+      }
+    };
+    writeln!(out, "{res}")?;
+    out.flush()?;
+    // time budget: a class (or, for free requests, the syntactic feature) that was seen to hang or
+    // to take longer than `slow_ms` is not paid for again in its remaining combinations
+    let costly = res["outcome"] == "Hang" || res["ms"].as_u64().unwrap_or(0) > slow_ms;
+    if costly {
+      let mut add: Vec<String> = vec![];
+      if p["src"] == "tlc" {
+        let nd = non_default(&p["cls"]);
+        for c in nd.iter() {
+          let n = slow_counts.entry(c.clone()).or_insert(0);
+          *n += 1;
+          add.push(format!("#{c}"));
+          if nd.len() == 1 || *n >= 2 {
+            add.push(c.clone());
+          }
+        }
+      } else if res["feat"]["hist_bounds"] == true {
+        add.push("feat=hist_bounds".into());
+      }
+      if !add.is_empty() {
+        let mut f = std::fs::OpenOptions::new().create(true).append(true).open(&skip_path)?;
+        for a in add {
+          writeln!(f, "{a}")?;
+          if !a.starts_with('#') {
+            skip.insert(a);
+          }
+        }
+      }
+    }
+    if ctx.exec.hangs >= 1 {
+      // the abandoned worker keeps spinning: let the parent restart a fresh process
+      std::process::exit(17);
+    }
+  }
+  Ok(())
+}
+
+// ------------------------------------------------------------------------------------------------
+// Random requests and mutants
+// ------------------------------------------------------------------------------------------------
+
+const DIMS: [(&str, &[&str]); 14] = [
+  ("cursor", &["none", "none", "none", "valid", "wrong_length", "nonhex_ascii", "hex_random", "utf8_odd", "utf8_aligned", "json_garbage", "json_wrong_types", "empty", "deep"]),
+  ("query", &["query_string", "match_all", "term", "prefix", "wildcard", "regex", "phrase", "multi_match", "dis_max", "bool",
+    "function_score", "script_score", "constant_score", "rank_feature", "legacy_string", "wildcard_dense", "wildcard_only_star",
+    "regex_invalid", "regex_nested_quantifiers", "regex_empty", "regex_multibyte", "phrase_no_terms", "phrase_huge_slop",
+    "multi_match_no_fields", "multi_match_bad_msm", "dis_max_empty", "bool_empty", "bool_only_must_not", "bool_deep",
+    "function_score_extreme", "function_score_no_functions", "script_syntax_error", "script_div_zero", "script_unknown_field",
+    "script_deep_parens", "script_multibyte", "rank_feature_text_field", "term_unknown_field", "term_multibyte", "term_empty",
+    "query_string_operators", "prefix_zero_expansions", "prefix_huge_expansions", "vector", "vector_wrong_dim"]),
+  ("boost", &["none", "none", "positive", "zero", "negative", "huge", "tiny", "negative_zero"]),
+  ("fuzzy", &["none", "none", "readme", "edits_0", "edits_255", "prefix_huge", "expansions_0", "min_length_0"]),
+  ("sort", &["none", "none", "score_desc", "numeric_fast", "keyword_fast", "multi", "score_asc", "nested_fast", "duplicate"]),
+  ("highlight", &["none", "legacy_field", "config", "legacy_unknown_field", "config_unknown_field", "fragment_0", "fragment_huge",
+    "fragments_0", "fragments_huge", "tags_regex_chars", "tags_multibyte", "fragment_odd_multibyte"]),
+  ("aggs", &["none", "none", "none", "terms", "stats", "histogram", "range", "terms_size_0", "terms_sub_aggs", "histogram_interval_0",
+    "histogram_interval_negative", "histogram_bounds_inverted", "range_inverted", "range_empty", "date_histogram",
+    "date_histogram_bad_interval", "date_range_bad_date", "percentiles_out_of_range", "percentile_ranks", "cardinality_precision_0",
+    "extended_stats_missing_string", "composite", "composite_bad_after", "composite_size_0", "composite_interval_0", "top_hits_huge",
+    "filter_agg", "significant_terms", "rare_terms", "sampling_probability_2", "sampling_negative", "pipeline_no_parent",
+    "pipeline_bad_path", "bucket_script_bad", "moving_avg_window_0", "bucket_sort_unknown", "deep_sub_aggs"]),
+  ("limit", &["normal", "normal", "one", "huge"]),
+  ("candidate", &["none", "none", "zero", "huge", "small"]),
+  ("collapse", &["none", "none", "keyword_fast", "multi_valued", "inner_hits", "inner_hits_huge", "inner_hits_bad_sort"]),
+  ("rescore", &["none", "none", "phrase", "window_0", "window_huge", "bad_query"]),
+  ("flags", &["none", "explain", "profile", "explain_profile", "no_hits", "no_stored"]),
+  ("suggest", &["none", "none", "completion", "fuzzy", "unknown_field", "size_0", "prefix_multibyte", "prefix_empty"]),
+  ("execution", &["default", "bm25", "bmw", "bmw_block_0", "bmw_block_1", "bmw_block_huge"]),
+];
+
+const NASTY_STR: [&str; 16] = [
+  "", " ", "*", "?", "\u{e9}", "a\u{e9}a", "\u{1f680}", "\u{65e5}\u{672c}", "(", "[a-", "\\", "\"", "rust rust", "_score", "body:rust",
+  "\u{0}",
+];
+
+fn nasty_number(r: &mut StdRng) -> Value {
+  match r.gen_range(0..12) {
+    0 => json!(0),
+    1 => json!(-1),
+    2 => json!(1),
+    3 => json!(UMAX),
+    4 => json!(i64::MIN),
+    5 => json!(1e308),
+    6 => json!(-1e308),
+    7 => json!(5e-324),
+    8 => json!(0.5),
+    9 => json!(4294967296u64),
+    10 => json!(2147483648u64),
+    _ => json!(r.gen_range(-100..100)),
+  }
+}
+
+/// Value-level mutation of a JSON tree (keeps it structure-aware).
+fn tweak(v: &mut Value, r: &mut StdRng, depth: usize) {
+  match v {
+    Value::Object(m) => {
+      if m.is_empty() {
+        return;
+      }
+      let keys: Vec<String> = m.keys().cloned().collect();
+      let k = pick(r, &keys).clone();
+      if depth > 0 && chance(r, 1, 12) {
+        m.remove(&k);
+      } else if let Some(x) = m.get_mut(&k) {
+        tweak(x, r, depth + 1);
+      }
+    }
+    Value::Array(a) => {
+      if a.is_empty() {
+        return;
+      }
+      let i = r.gen_range(0..a.len());
+      match r.gen_range(0..5) {
+        0 => {
+          let x = a[i].clone();
+          a.push(x);
+        }
+        1 => {
+          a.remove(i);
+        }
+        _ => tweak(&mut a[i], r, depth + 1),
+      }
+    }
+    Value::String(s) => {
+      *s = match r.gen_range(0..4) {
+        0 => pick(r, &NASTY_STR).to_string(),
+        1 => format!("{s}{}", pick(r, &NASTY_STR)),
+        2 => s.chars().rev().collect(),
+        _ => s.repeat(r.gen_range(2..40)),
+      };
+    }
+    Value::Number(_) => *v = nasty_number(r),
+    Value::Bool(b) => *b = !*b,
+    Value::Null => {}
+  }
+}
+
+/// Byte/char-level mutation of request text. Returns None when the result is not UTF-8.
+fn mutate_text(text: &str, r: &mut StdRng) -> Option<String> {
+  let mut b = text.as_bytes().to_vec();
+  let n = r.gen_range(1..=3);
+  for _ in 0..n {
+    if b.is_empty() {
+      break;
+    }
+    let at = r.gen_range(0..b.len());
+    match r.gen_range(0..9) {
+      0 => b[at] ^= 1 << r.gen_range(0..8),
+      1 => {
+        b.remove(at);
+      }
+      2 => {
+        let ins = pick(r, &["\u{e9}", "\u{1f680}", "\u{65e5}", "\\u00e9", "\\ud83d", "0", "-", "e9", "\"", "[", "{", "null", "*", "\\"]);
+        for (j, x) in ins.bytes().enumerate() {
+          b.insert(at + j, x);
+        }
+      }
+      3 => {
+        // replace a run of digits by a nasty number
+        let mut e = at;
+        while e < b.len() && (b[e].is_ascii_digit() || b[e] == b'.') {
+          e += 1;
+        }
+        if e > at {
+          let rep = pick(r, &["0", "-1", "18446744073709551615", "1e308", "-0.0", "1e-320", "4294967295", "9223372036854775807", "0.000001"]);
+          b.splice(at..e, rep.bytes());
+        }
+      }
+      4 => {
+        // duplicate a span
+        let e = (at + r.gen_range(1..24)).min(b.len());
+        let span: Vec<u8> = b[at..e].to_vec();
+        for (j, x) in span.into_iter().enumerate() {
+          b.insert(e + j, x);
+        }
+      }
+      5 => b[at] = r.gen_range(0x20..0x7f),
+      6 => {
+        // swap two bytes
+        let other = r.gen_range(0..b.len());
+        b.swap(at, other);
+      }
+      7 => {
+        // ASCII letter inside a string -> multi-byte character (char-level)
+        if b[at].is_ascii_alphabetic() {
+          let rep = pick(r, &["\u{e9}", "\u{df}", "\u{3b1}", "\u{65e5}", "\u{1f680}"]);
+          b.splice(at..at + 1, rep.bytes());
+        }
+      }
+      _ => {
+        let e = (at + r.gen_range(1..12)).min(b.len());
+        b.drain(at..e);
+      }
+    }
+  }
+  String::from_utf8(b).ok()
+}
+
+// ------------------------------------------------------------------------------------------------
+// Parent
+// ------------------------------------------------------------------------------------------------
+
+pub fn main(args: &Args) -> Result<()> {
+  if args.flag("child") {
+    return child(args);
+  }
+  let seed = args.u64("seed", 1);
+  let out = args.str("out", "/verif/out/robust.ndjson");
+  let n_rand = args.usize("random", 600);
+  let n_mut = args.usize("mutants", 1500);
+  let timeout_ms = args.u64("timeout-ms", 20_000);
+  let mut scratch = Scratch::new("robust");
+  if args.flag("keep") {
+    scratch.keep();
+  }
+  for k in 0..3 {
+    build_index(&scratch.join(&format!("idx{k}")), k, seed, false)?;
+    build_index(&scratch.join(&format!("old{k}")), k, seed, true)?;
+  }
+
+  // ---- plan ----
+  let mut plan: Vec<Value> = vec![];
+  let mut seen: BTreeSet<String> = BTreeSet::new();
+  let mut n_tlc = 0usize;
+  if let Some(cases) = args.get("cases") {
+    let text = std::fs::read_to_string(cases)?;
+    let mut vs: Vec<Value> = vec![];
+    for line in text.lines().filter(|l| !l.trim().is_empty()) {
+      vs.push(serde_json::from_str(line)?);
+    }
+    // single-class cases first: a hang there identifies the class before its pairs are run
+    vs.sort_by_key(|v| non_default(&v["cls"]).len());
+    for v in vs {
+      let key = v["cls"].to_string();
+      if !seen.insert(key) {
+        continue;
+      }
+      // index chosen round-robin; vector classes go to the index that has a vector field
+      let q = v["cls"]["query"].as_str().unwrap_or("");
+      let idx = if q.starts_with("vector") && n_tlc % 3 != 0 { 1 } else { n_tlc % 3 };
+      plan.push(json!({"src": "tlc", "idx": idx, "cls": v["cls"]}));
+      n_tlc += 1;
+    }
+  }
+  // structure-aware random requests: a random class per dimension, then value-level tweaks
+  let mut valid_texts: Vec<String> = vec![];
+  for i in 0..n_rand {
+    let mut r = rng(seed, 9_200_000 + i as u64);
+    let mut cls = Map::new();
+    for (d, cs) in DIMS.iter() {
+      cls.insert(d.to_string(), json!(*pick(&mut r, cs)));
+    }
+    // cursors that need a first page are instantiated by the child: keep those as class vectors
+    let cls = Value::Object(cls);
+    let mut c2 = cls.clone();
+    c2["cursor"] = json!("none");
+    let mut req = base_request(&c2)?;
+    let ntw = r.gen_range(0..4);
+    for _ in 0..ntw {
+      tweak(&mut req, &mut r, 0);
+    }
+    if chance(&mut r, 1, 3) {
+      let c = match r.gen_range(0..8) {
+        0 => format!("a{}a", "\u{e9}".repeat(r.gen_range(0..22))),
+        1 => "\u{e9}".repeat(r.gen_range(0..24)),
+        2 => (0..r.gen_range(0..60)).map(|_| char::from_digit(r.gen_range(0..16), 16).unwrap()).collect(),
+        3 => hex(cursor_state_json(r.gen_range(0..4), r.gen_range(0..70_000)).as_bytes()),
+        4 => format!("01{:08x}{:08x}{:08x}{:08x}{:08x}", r.gen_range(0..4u32), r.gen::<u32>(), r.gen_range(0..3u32), r.gen_range(0..40u32), r.gen_range(0..70_000u32)),
+        5 => pick(&mut r, &NASTY_STR).to_string(),
+        6 => format!("{}\u{1f680}", "0".repeat(r.gen_range(0..40))),
+        _ => "\u{65e5}".repeat(r.gen_range(0..16)),
+      };
+      req["cursor"] = json!(c);
+    }
+    if ntw == 0 {
+      valid_texts.push(req.to_string());
+    }
+    plan.push(json!({"src": "rand", "idx": i % 3, "req": req}));
+  }
+  // byte/char-level mutants of valid request JSON; only those that still deserialise are executed
+  let mut tried = 0usize;
+  let mut kept = 0usize;
+  let mut deser_panics = 0usize;
+  if !valid_texts.is_empty() {
+    let mut r = rng(seed, 9_300_000);
+    while kept < n_mut && tried < n_mut * 40 {
+      tried += 1;
+      let base = pick(&mut r, &valid_texts).clone();
+      let Some(m) = mutate_text(&base, &mut r) else { continue };
+      if m == base {
+        continue;
+      }
+      match catch_unwind(|| serde_json::from_str::<SearchRequest>(&m).is_ok()) {
+        Ok(true) => {
+          plan.push(json!({"src": "mut", "idx": kept % 3, "text": m}));
+          kept += 1;
+        }
+        Ok(false) => {}
+        Err(_) => deser_panics += 1,
+      }
+    }
+  }
+  let plan_path = scratch.join("plan.ndjson");
+  {
+    let mut f = std::io::BufWriter::new(std::fs::File::create(&plan_path)?);
+    for p in plan.iter() {
+      writeln!(f, "{p}")?;
+    }
+  }
+
+  // ---- run children ----
+  let res_path = scratch.join("results.ndjson");
+  let skip_path = scratch.join("skip.txt");
+  std::fs::write(&skip_path, "")?;
+  let exe = std::env::current_exe()?;
+  let mut start = 0usize;
+  let mut aborts: BTreeMap<usize, String> = BTreeMap::new();
+  let mut restarts = 0usize;
+  loop {
+    let st = std::process::Command::new(&exe)
+      .args(["robust", "--child", "--dir"])
+      .arg(&scratch.path)
+      .arg("--plan")
+      .arg(&plan_path)
+      .arg("--results")
+      .arg(&res_path)
+      .arg("--skip")
+      .arg(&skip_path)
+      .args(["--start", &start.to_string(), "--timeout-ms", &timeout_ms.to_string()])
+      .args(["--slow-ms", &args.u64("slow-ms", 2_000).to_string()])
+      .stderr(std::process::Stdio::null())
+      .status()
+      .context("spawning child")?;
+    if st.success() {
+      break;
+    }
+    restarts += 1;
+    if restarts > 200 {
+      bail!("child restarted more than 200 times");
+    }
+    // find the request that was in flight
+    let text = std::fs::read_to_string(&res_path).unwrap_or_default();
+    let mut last_begin: Option<usize> = None;
+    let mut last_done: Option<usize> = None;
+    for l in text.lines() {
+      if let Ok(v) = serde_json::from_str::<Value>(l) {
+        if let Some(b) = v.get("begin").and_then(|b| b.as_u64()) {
+          last_begin = Some(b as usize);
+        } else if let Some(i) = v.get("i").and_then(|b| b.as_u64()) {
+          last_done = Some(i as usize);
+        }
+      }
+    }
+    match (last_begin, last_done) {
+      (Some(b), d) if d != Some(b) => {
+        if st.code() != Some(17) {
+          aborts.insert(b, format!("child exited with {st}"));
+        } else {
+          // exit 17 after the result line was written never gets here; defensive
+          aborts.insert(b, "child gave up".into());
+        }
+        start = b + 1;
+      }
+      (Some(b), _) => start = b + 1, // exit 17: restart after the last completed request
+      (None, _) => bail!("child failed before the first request: {st}"),
+    }
+    if start >= plan.len() {
+      break;
+    }
+  }
+
+  // ---- merge into the trace ----
+  let mut results: BTreeMap<usize, Value> = BTreeMap::new();
+  for l in std::fs::read_to_string(&res_path)?.lines() {
+    let v: Value = serde_json::from_str(l)?;
+    if let Some(i) = v.get("i").and_then(|b| b.as_u64()) {
+      results.insert(i as usize, v);
+    }
+  }
+  let skip: BTreeSet<String> = std::fs::read_to_string(&skip_path)
+    .unwrap_or_default()
+    .lines()
+    .filter(|l| !l.trim().is_empty() && !l.starts_with('#'))
+    .map(|l| l.trim().to_string())
+    .collect();
+  let mut tr = Tracer::create(Path::new(&out))?;
+  let mut counts: BTreeMap<String, usize> = BTreeMap::new();
+  let mut skips: BTreeMap<String, usize> = BTreeMap::new();
+  let mut max_ms = 0u64;
+  let mut executed = 0usize;
+  for (i, p) in plan.iter().enumerate() {
+    let src = p["src"].as_str().unwrap();
+    let cls = if src == "tlc" { p["cls"].clone() } else { free_cls() };
+    let ev = if let Some(why) = aborts.get(&i) {
+      let text = if src == "mut" { p["text"].as_str().unwrap().to_string() } else if src == "rand" { p["req"].to_string() } else { p["cls"].to_string() };
+      json!({"ev": "req", "i": i, "src": src, "idx": p["idx"], "cls": cls, "outcome": "Abort",
+             "feat": cursor_features(&json!({"__text": text})),
+             "pcls": "-", "loc": "", "msg": why, "ms": 0, "req": text.chars().take(700).collect::<String>()})
+    } else if let Some(rv) = results.get(&i) {
+      if rv["outcome"] == "Skip" {
+        let why: String = rv["why"].as_str().unwrap_or("").chars().take(40).collect();
+        *skips.entry(why).or_insert(0) += 1;
+        json!({"ev": "skip", "i": i, "src": src, "idx": p["idx"], "cls": cls, "why": rv["why"]})
+      } else {
+        max_ms = max_ms.max(rv["ms"].as_u64().unwrap_or(0));
+        json!({"ev": "req", "i": i, "src": src, "idx": p["idx"], "cls": cls, "outcome": rv["outcome"],
+               "feat": rv["feat"], "pcls": rv["pcls"], "loc": rv["loc"], "msg": rv["msg"], "ms": rv["ms"], "req": rv["req"]})
+      }
+    } else {
+      json!({"ev": "skip", "i": i, "src": src, "idx": p["idx"], "cls": cls, "why": "not executed"})
+    };
+    if ev["ev"] == "req" {
+      executed += 1;
+      *counts.entry(format!("{}:{}", src, ev["outcome"].as_str().unwrap())).or_insert(0) += 1;
+    }
+    tr.emit(ev);
+  }
+  let lines = tr.finish();
+  println!(
+    "{}",
+    json!({"planned": plan.len(), "executed": executed, "tlc_cases": n_tlc, "random": n_rand, "mutants": kept,
+           "mutants_tried": tried, "deserialise_panics": deser_panics, "outcomes": counts, "skips": skips,
+           "child_restarts": restarts, "max_ms": max_ms, "events": lines, "out": out,
+           "hang_budget_skips": skip.iter().cloned().collect::<Vec<_>>(), "timeout_ms": timeout_ms})
+  );
+  Ok(())
 }
